@@ -215,7 +215,7 @@ def run(ctx):
             and rg.cfg.node_dominates(sets[0], adv[0])
     ctx.ob("R6.offsets", "chunk-offsets|%s:carquet_row_group_writer_finalize" % RW, P.where(rg.body),
            "each chunk's file_offset is the running offset, which then advances by the bytes appended for it", okr)
-    fr = P.fn("flush_row_group", FW)
+    fr = P.inlined(P.fn("flush_row_group", FW), 2)      # a helper that fills one chunk is expanded
     dp = [s for s in fr.body.walk() if is_assign(s) and s.c[0].strip().k == "MemberExpr" and s.c[0].strip().name == "data_page_offset"]
     fo = [s for s in fr.body.walk() if is_assign(s) and s.c[0].strip().k == "MemberExpr" and s.c[0].strip().name == "file_offset"
           and s.c[0].strip().get("rec") == "parquet_column_chunk"]
